@@ -56,7 +56,7 @@ func (f *Frame) runPaths(st0 *State) *RunResult {
 			for _, r := range t.Results {
 				rs = append(rs, f.val(r))
 			}
-			f.rets = append(f.rets, exitRec{st: st, results: rs, where: f.where(t), kind: "return"})
+			f.rets = append(f.rets, exitRec{st: st, results: rs, where: f.where(t), kind: "return", blk: t.Block()})
 		case *ssa.Panic:
 			if f.panicHook != nil {
 				f.panicHook(st, "panic", t)
